@@ -7,7 +7,7 @@ META = {
     "explanation": "The chunking lemma needs: (a) a candidate's verdict depends only on its first L+6 bytes and is Incomplete iff "
                    "fewer than 6 / L+6 bytes are available (A-ext, A-inc, D-len, D-idx, N-pres); (b) Incomplete returns the candidate's own "
                    "offset (S-inc); (c) skipped bytes are NotValid or non-0xD3 positions (S-skip, S-cand); (d) Ok returns the frame end (S-ok) "
-                   "and the end of data returns len (S-end). This check is the conjunction of those rule instances on the current tree.",
+                   "and the end of data returns len (S-end). This check is the conjunction of those rule instances on the current tree. The scanner's completeness clause (every 0xD3 position is handed to new(), S-cand) is imported with the other scan rules.",
     "assumptions": ["induction over chunks is done on paper, not mechanised"],
 }
 
